@@ -294,6 +294,7 @@ func ruleMappingRule(c *Ctx, r *Report, rule string) {
 
 func checkC05(c *Ctx, r *Report) {
 	ruleMappingRule(c, r, "mapping-rule")
+	ruleEndBlock(c, r, "blocks-reach-result")
 	ruleStringOpaque(c, r, "string-literal-scan")
 	ruleNoCoercion(c, r, "no-coercion")
 	ruleReflectGuards(c, r, "fresh-slice-and-guards")
